@@ -101,7 +101,7 @@ def observe_source(out, named, fields, container):
                     return i
             return "unrecognised"
         return int(name)
-    m = re.search(r"S :: V ([({])(.*?)[)}] => Some \(source \. as_dyn_error", out)
+    m = re.search(r"S :: V ([({])(.*?)[)}] => (?:derive_more :: core :: option :: Option :: )?Some \(source \. as_dyn_error", out)
     if not m:
         # variant V may simply have no source arm
         return None if "S :: V" not in out.split("fn source")[1].split("fn provide")[0] else "unrecognised"
